@@ -55,6 +55,11 @@ type GripServer struct {
 	// mapLock guards graphMap, dbs (extended by updateGraphMap) and schemas:
 	// every gRPC handler reads them, edits and schema uploads replace them
 	mapLock sync.RWMutex
+	// schemaLock makes a schema upload (the stored schema graph is replaced in
+	// several separate writes, then the cache entry) one step: two uploads for
+	// one graph must not leave a mixture of both stored, nor one stored and
+	// the other served
+	schemaLock sync.Mutex
 }
 
 // NewGripServer initializes a GRPC server to connect to the graph store
